@@ -232,6 +232,16 @@ func classify(x, idx ssa.Value) (shape string, v ssa.Value, c int64, ok bool) {
 	if k, isC := constInt(idx); isC {
 		return "const", nil, k, true
 	}
+	// a loop-carried index that is counted down (i--, i -= c): needs a lower bound
+	if phi, isP := stripConv(idx).(*ssa.Phi); isP {
+		for _, e := range phi.Edges {
+			if eb, ok := stripConv(e).(*ssa.BinOp); ok && eb.Op == token.SUB && stripConv(eb.X) == ssa.Value(phi) {
+				if k, isC := constInt(eb.Y); isC && k >= 1 {
+					return "countdown", phi, k, true
+				}
+			}
+		}
+	}
 	b, isB := stripConv(idx).(*ssa.BinOp)
 	if !isB {
 		return "", nil, 0, false
@@ -278,6 +288,13 @@ func (lc *laCtx) indexOb(in ssa.Instruction, x, idx ssa.Value) (IndexOb, bool) {
 		ob.Ok, ob.Why = lc.sumBelowLen(in, x, v, c, true)
 	case "len-c":
 		ob.Ok, ob.Why = lc.lenAtLeast(in, x, c)
+	case "countdown":
+		lo, _, _ := ob.Facts.Range(Expr(v))
+		if lo >= 0 && exactFact(ob.Facts, Expr(v)) {
+			ob.Ok, ob.Why = true, "counted-down index guarded by a lower bound"
+		} else {
+			ob.Ok, ob.Why = false, "the index "+Expr(v)+" is counted down in a loop and no dominating guard keeps it >= 0"
+		}
 	}
 	return ob, true
 }
